@@ -12,7 +12,18 @@
 Interpretation decisions
   * from_tokens infers the grid size from the largest index in the adjacency list and builds a SQUARE grid
     (docstring: "only tested for square mazes"); the property's quantifier is "grid sizes 2..20" = grid_n,
-    so only square mazes are judged (an oblong 2x3 maze comes back 3x3 - outside the statement).
+    so the ROUND TRIP is judged on square mazes only (an oblong 2x3 maze comes back 3x3 - outside the statement;
+    TokLegacy!PadSq / TokLegacy_sqinfer.cfg).  Oblong mazes (audit class D) are observed all the same: their round trip
+    is Layer M (the maze itself or the maze padded to the square of side max(R, C)), while the second sentence of the
+    statement - both tokenizers emit the same tokens, dataset level = per maze - does not go through from_tokens and
+    stays Layer P for them.
+  * side effects on the caller's objects (token list handed to from_tokens, maze handed to as_tokens) are not part of
+    the statement: Layer M (M:from_tokens_modified_its_argument, M:tokenization_modified_the_maze).  Their CONSEQUENCES
+    are Layer P: the string that is parsed is joined from the caller's list after the list call, the maze is compared
+    with its value before the calls.
+  * a 0/1 connection array that is not boolean is beyond the declared type (ConnectionList = Bool): lax records, every
+    clause Layer M.  Fortran-ordered / non-contiguous boolean arrays, start / end / solution as tuple, list, int8 or
+    int64 arrays are ordinary mazes (the constructors convert them): Layer P.
   * `cls.from_tokens` returns the kind that the TOKENS denote whatever `cls` is; "same kind" is judged
     against the kind of the maze that was tokenized; cls is rotated over the three classes.
   * equivalence legacy/modular is up to order and orientation of adjacency entries: equal outside the
@@ -102,45 +113,145 @@ def _far_ends(conn):
     return a, b
 
 
-def _gen_conn(rng, gen, n):
+def _full(r, c):
+    """every connection of the r x c lattice (harness-built)"""
+    conn = np.ones((2, r, c), dtype=bool)
+    conn[0, -1, :] = False
+    conn[1, :, -1] = False
+    return conn
+
+
+def _sparse(r, c):
+    """about as few connections as the premise allows (harness-built): one horizontal step per row, placed (and
+    topped up) so that every column is touched as well.  Mostly two-cell components and isolated cells: one-cell
+    solutions at a cell without any neighbour, two-cell solutions that are a whole component."""
+    if c == 1:  # a single column: the transposed single row
+        t = _sparse(c, r)
+        return np.stack([t[1].T, t[0].T])
+    conn = np.zeros((2, r, c), dtype=bool)
+    covered = set()
+    for i in range(r):
+        j = min(2 * i, c - 2)
+        conn[1, i, j] = True
+        covered |= {j, j + 1}
+    for j in range(c):
+        if j not in covered:
+            jj = min(j, c - 2)
+            conn[1, j % r, jj] = True
+            covered |= {jj, jj + 1}
+    return conn
+
+
+def _gen_conn(rng, gen, r, c):
+    """-> (connection list, generation_meta of the generator's maze or None)"""
     if gen == "snake":
-        return _snake(n)
+        assert r == c
+        return _snake(r), None
+    if gen == "full":
+        return _full(r, c), None
+    if gen == "sparse":
+        return _sparse(r, c), None
     from maze_dataset.generation import LatticeMazeGenerators as G
 
     np.random.seed(int(rng.integers(0, 2**31)))
     random.seed(int(rng.integers(0, 2**31)))
-    shape = np.array([n, n])
+    shape = np.array([r, c])
     if gen == "dfs":
-        return G.gen_dfs(shape).connection_list
-    if gen == "wilson":
-        return G.gen_wilson(shape).connection_list
-    if gen == "dfs_perc":
-        return G.gen_dfs_percolation(shape, p=float(rng.choice([0.1, 0.3, 0.6]))).connection_list
-    raise ValueError(gen)
+        m = G.gen_dfs(shape)
+    elif gen == "wilson":
+        m = G.gen_wilson(shape)
+    elif gen == "dfs_perc":
+        m = G.gen_dfs_percolation(shape, p=float(rng.choice([0.1, 0.3, 0.6])))
+    else:
+        raise ValueError(gen)
+    return m.connection_list, m.generation_meta
 
 
 def _pick_se(rng, conn, how):
-    n = conn.shape[1]
-    s = (int(rng.integers(0, n)), int(rng.integers(0, n)))
+    nr, nc = conn.shape[1], conn.shape[2]
+    s = (int(rng.integers(0, nr)), int(rng.integers(0, nc)))
     if how == "same":
+        return s, s
+    if how == "origin":  # the falsy cell: index 0 on both axes, as a one-cell path
+        return (0, 0), (0, 0)
+    if how == "iso":  # a cell without any connection when there is one (one-cell path in a one-cell component)
+        iso = [x for x in mz.cells(nr, nc) if not mz.nbrs(conn, x)]
+        if iso:
+            s = iso[int(rng.integers(0, len(iso)))]
         return s, s
     if how == "adj":
         for _ in range(50):
             nb = mz.nbrs(conn, s)
             if nb:
                 return s, nb[int(rng.integers(0, len(nb)))]
-            s = (int(rng.integers(0, n)), int(rng.integers(0, n)))
+            s = (int(rng.integers(0, nr)), int(rng.integers(0, nc)))
         return s, s
-    e = (int(rng.integers(0, n)), int(rng.integers(0, n)))
+    e = (int(rng.integers(0, nr)), int(rng.integers(0, nc)))
     return s, e
 
 
-def _make_maze(conn, kind, s, e, sol):
+# audit class G: the same maze handed over in another representation.  All of them are values the constructors accept
+# as documented (they convert start / end / solution with np.array); "u8" (a 0/1 connection array that is not boolean)
+# is beyond the declared type and only ever used with lax = "nonbool_conn" (Layer M).
+REPS = ["c", "f", "v", "i8"]
+CTORS = ["plain", "factory", "redundant"]
+
+
+def _rep_conn(conn, rep):
+    conn = np.asarray(conn, dtype=bool)
+    if rep == "f":  # Fortran-ordered
+        return np.asfortranarray(conn)
+    if rep == "v":  # a non-contiguous view into the caller's larger buffer; the gaps hold the complement
+        big = np.empty((2, conn.shape[1], 2 * conn.shape[2]), dtype=bool)
+        big[:, :, 0::2] = conn
+        big[:, :, 1::2] = ~conn
+        return big[:, :, 0::2]
+    if rep == "u8":
+        return conn.astype(np.uint8)
+    return np.ascontiguousarray(conn)
+
+
+def _rep_cell(x, rep):
+    if rep == "f":
+        return (int(x[0]), int(x[1]))
+    if rep == "v":
+        return [int(x[0]), int(x[1])]
+    if rep == "i8":
+        return np.array(x, dtype=np.int8)
+    return np.array(x)
+
+
+def _rep_sol(sol, rep):
+    if rep == "f":
+        return [(int(a), int(b)) for a, b in sol]
+    if rep == "v":  # every second row of a larger int64 buffer
+        big = np.full((2 * len(sol), 2), 77, dtype=np.int64)
+        big[0::2] = np.array(sol).reshape(len(sol), 2)
+        return big[0::2]
+    if rep == "i8":
+        return np.array(sol, dtype=np.int8)
+    return np.array(sol)
+
+
+def _make_maze(conn, kind, s, e, sol, rep="c", ctor="plain", meta=None):
+    """ctor (audit class F): "plain" = the class constructors; "factory" = LatticeMaze -> from_lattice_maze /
+    from_targeted_lattice_maze; "redundant" = SolvedMaze(..., start_pos=, end_pos=) with the (consistent) redundant
+    endpoints spelled out.  meta: generation_meta present (a dict) or absent (None)."""
+    conn = _rep_conn(conn, rep)
     if kind == "LatticeMaze":
-        return mz.LatticeMaze(connection_list=conn)
+        return mz.LatticeMaze(connection_list=conn, generation_meta=meta)
     if kind == "TargetedLatticeMaze":
-        return mz.TargetedLatticeMaze(connection_list=conn, start_pos=np.array(s), end_pos=np.array(e))
-    return mz.SolvedMaze(connection_list=conn, solution=np.array(sol))
+        if ctor == "factory":
+            return mz.TargetedLatticeMaze.from_lattice_maze(mz.LatticeMaze(connection_list=conn, generation_meta=meta), _rep_cell(s, rep), _rep_cell(e, rep))
+        return mz.TargetedLatticeMaze(connection_list=conn, start_pos=_rep_cell(s, rep), end_pos=_rep_cell(e, rep), generation_meta=meta)
+    if ctor == "factory":
+        lm = mz.LatticeMaze(connection_list=conn, generation_meta=meta)
+        if rep in ("c", "i8"):
+            return mz.SolvedMaze.from_lattice_maze(lm, _rep_sol(sol, rep))
+        return mz.SolvedMaze.from_targeted_lattice_maze(mz.TargetedLatticeMaze.from_lattice_maze(lm, _rep_cell(sol[0], rep), _rep_cell(sol[-1], rep)), solution=_rep_sol(sol, rep))
+    if ctor == "redundant":
+        return mz.SolvedMaze(connection_list=conn, solution=_rep_sol(sol, rep), start_pos=_rep_cell(sol[0], rep), end_pos=_rep_cell(sol[-1], rep), generation_meta=meta)
+    return mz.SolvedMaze(connection_list=conn, solution=_rep_sol(sol, rep), generation_meta=meta)
 
 
 def _transposed(m):
@@ -155,17 +266,31 @@ def _transposed(m):
     return _make_maze(conn, "LatticeMaze", None, None, None)
 
 
+def _shape(job):
+    """(rows, cols): job["rc"] for an oblong maze, else the square job["n"]"""
+    rc = job.get("rc")
+    return (int(rc[0]), int(rc[1])) if rc else (job["n"], job["n"])
+
+
 def build_maze(job):
     """job -> (maze object, effective kind).  Deterministic in the job."""
     rng = np.random.default_rng(job["seed"])
     n = job["n"]
-    conn = mz.conn_from_int(n, n, job["g"]) if job.get("g") is not None else _gen_conn(rng, job["gen"], n)
+    nr, nc = _shape(job)
+    if job.get("g") is not None:
+        conn, meta = mz.conn_from_int(nr, nc, job["g"]), None
+    else:
+        conn, meta = _gen_conn(rng, job["gen"], nr, nc)
+    if not job.get("meta"):
+        meta = None
+    elif meta is None:  # harness-built graph: a small hand-made record
+        meta = dict(func_name="harness", grid_shape=[nr, nc], fully_connected=False)
     kind = job["kind"]
     s = e = sol = None
     if kind != "LatticeMaze":
         if job.get("se") == "far":
             s, e = _far_ends(conn)
-        elif job.get("se") in ("same", "adj", "rand"):
+        elif job.get("se") in ("same", "adj", "rand", "iso", "origin"):
             s, e = _pick_se(rng, conn, job["se"])
         else:
             s, e = tuple(job["se"][0]), tuple(job["se"][1])
@@ -173,7 +298,7 @@ def build_maze(job):
             sol = _walk(rng, conn, s, int(rng.integers(2, 3 * n))) if job.get("walk") else _bfs_path(conn, s, e)
             if sol is None:  # disconnected pair: no solution exists, keep the case as a targeted maze
                 kind = "TargetedLatticeMaze"
-    return _make_maze(conn, kind, s, e, sol), kind
+    return _make_maze(conn, kind, s, e, sol, rep=job.get("rep") or "c", ctor=job.get("ctor") or "plain", meta=meta), kind
 
 
 def tokenizers(mode, mgs_opt, n, as_enum):
@@ -217,10 +342,55 @@ def _reseed(job, salt):
     random.seed(x)
 
 
+def _reparse(cls, tok, toks, via, rp, argmod, twice=False):
+    """the two re-parses (list, string) of one token stream, audit class E: the tokens are handed over as the CALLER'S
+    OWN list object; the string is joined from that same list AFTER the list call (a call that edits its argument
+    spoils the next parse); the list is then overwritten in place BEFORE anything is read from the returned maze.
+    `twice` (histories): every call is made twice, the arrays of the first result are overwritten in place by the
+    caller, the second result is logged."""
+    L = list(toks)
+    r2, y = mz.outcome(lambda: cls.from_tokens(L, tok))
+    if twice:
+        if r2 == "ok":
+            _scramble_maze(y)
+        r2, y = mz.outcome(lambda: cls.from_tokens(L, tok))
+    if L != list(toks):
+        argmod.append(via)
+    S = " ".join(L)
+    L.reverse()
+    L[:] = [PAD_TOKEN] * len(L)
+    if r2 == "ok":
+        r2, y = mz.outcome(lambda: _proj_safe(y))
+    rp.append(dict(via=via, inp="list", res=r2, maze=y if r2 == "ok" else EMPTY_MAZE))
+    r2, y = mz.outcome(lambda: cls.from_tokens(S, tok))
+    if twice:
+        if r2 == "ok":
+            _scramble_maze(y)
+        r2, y = mz.outcome(lambda: cls.from_tokens(S, tok))
+    if r2 == "ok":
+        r2, y = mz.outcome(lambda: _proj_safe(y))
+    rp.append(dict(via=via, inp="str", res=r2, maze=y if r2 == "ok" else EMPTY_MAZE))
+
+
+PAD_TOKEN = "<PADDING>"
+
+
+def _scramble_maze(y):
+    """the caller overwrites, in place, every array of a maze it was given (a later call must not be affected)"""
+    for name in ("connection_list", "start_pos", "end_pos", "solution"):
+        a = getattr(y, name, None)
+        if isinstance(a, np.ndarray) and a.flags.writeable:
+            if a.dtype == bool:
+                a[...] = ~a
+            else:
+                a[...] = a + 1
+
+
 def observe_rt(job):
     m, kind = build_maze(job)
     lt, mt, mgs = tokenizers(job["mode"], job["mgs"], job["n"], job["as_enum"])
-    rec = dict(t="rt", mode=job["mode"], mgs=[] if mgs is None else [mgs], maze=mz.proj(m), job=json.dumps(job), src=job["src"])
+    before = mz.proj(m)
+    rec = dict(t="rt", mode=job["mode"], mgs=[] if mgs is None else [mgs], maze=before, job=json.dumps(job), src=job["src"], lax=job.get("lax") or "")
     _reseed(job, 1)
     rec["resL"], tl = mz.outcome(lambda: _tok_list(m.as_tokens(lt)))
     _reseed(job, 2)
@@ -228,15 +398,13 @@ def observe_rt(job):
     rec["tokL"], rec["tokM"] = tl or [], tm or []
     cls = [mz.LatticeMaze, mz.TargetedLatticeMaze, mz.SolvedMaze][(KINDS.index(kind) + job["clsrot"]) % 3]
     rec["cls"] = cls.__name__
-    rp = []
+    rp, argmod = [], []
     for via, tok, res, toks in (("legacy", lt, rec["resL"], tl), ("modular", mt, rec["resM"], tm)):
-        if res != "ok":
-            continue
-        for inp in ("list", "str"):
-            arg = list(toks) if inp == "list" else " ".join(toks)
-            r2, y = mz.outcome(lambda: _proj_safe(cls.from_tokens(arg, tok)))
-            rp.append(dict(via=via, inp=inp, res=r2, maze=y if r2 == "ok" else EMPTY_MAZE))
-    rec["rp"] = rp
+        if res == "ok":
+            _reparse(cls, tok, toks, via, rp, argmod)
+    rec["rp"], rec["argmod"] = rp, argmod
+    r3, after = mz.outcome(lambda: mz.proj(m))
+    rec["mazemod"] = not (r3 == "ok" and after == before)
     return rec
 
 
@@ -291,23 +459,75 @@ def _ds_base(job, mazes, mgs, limit, join):
                 limit=[] if limit is None else [limit], join=bool(join), src=job["src"])
 
 
-def observe_ds(job):
+def _ds_mazes(job):
+    """the mazes of a dataset job in order; job["dup"]: "object" = the first maze OBJECT once more at the end,
+    "equal" = an equal maze built a second time at the end (audit class F: duplicated elements)"""
+    mazes = [build_maze(j)[0] for j in job["mazes"]]
+    if job.get("dup") == "object" and mazes:
+        mazes.append(mazes[0])
+    elif job.get("dup") == "equal" and mazes:
+        mazes.append(build_maze(job["mazes"][0])[0])
+    return mazes
+
+
+def _ds_build(job, mazes):
+    """the dataset object of a job (audit classes E / F / G).
+    job["cfg_n"]   the config's n_mazes: "len" (default), "zero", "less", "more" - a stale count (the field is declared
+                   compare=False and is not updated by filters); job["cfg_grid"] likewise a grid_n that is not the mazes';
+    job["ctor"]    how the mazes are handed to the constructor: "list" (default), "tuple", "iter" (a one-shot iterator),
+                   "own-cleared" / "own-reversed" (the caller's own list, emptied / reversed in place AFTER construction);
+    job["generated"]  instead of all that: MazeDataset.generate (the usual factory: mazes carry generation_meta),
+                   "collected" = generation metadata collected (removed from the mazes) before tokenizing.
+    -> (dataset, the mazes the dataset was given, in order)"""
     from maze_dataset import MazeDataset, MazeDatasetConfig
 
-    mazes = [build_maze(j)[0] for j in job["mazes"]]
+    if job.get("generated"):
+        from maze_dataset.generation import LatticeMazeGenerators as G
+
+        cfg = MazeDatasetConfig(name="c07g", grid_n=job["n"], n_mazes=job["nm"], maze_ctor=G.gen_dfs, seed=int(job["seed"][-1]) + 1)
+        ds = MazeDataset.generate(cfg, gen_parallel=False)
+        if job["generated"] == "collected":
+            ds = ds.filter_by.collect_generation_meta()
+        return ds, list(ds.mazes)
+    n = len(mazes)
+    cfg_n = dict(len=n, zero=0, less=max(n - 1, 0), more=n + 2)[job.get("cfg_n") or "len"]
+    cfg = MazeDatasetConfig(name="c07", grid_n=job.get("cfg_grid") or job["n"], n_mazes=cfg_n)
+    ctor = job.get("ctor") or "list"
+    if ctor == "tuple":
+        return MazeDataset(cfg, tuple(mazes)), mazes
+    if ctor == "iter":
+        return MazeDataset(cfg, iter(list(mazes))), mazes
+    if ctor in ("own-cleared", "own-reversed"):
+        own = list(mazes)
+        ds = MazeDataset(cfg, own)
+        if ctor == "own-cleared":
+            own.clear()
+        else:
+            own.reverse()
+        return ds, mazes
+    return MazeDataset(cfg, mazes), mazes
+
+
+def observe_ds(job):
     lt, mt, mgs = tokenizers(job["mode"], job["mgs"], job["n"], job["as_enum"])
     tok = lt if job["via"] == "legacy" else mt
+    _reseed(job, 4)
+    res0, built = mz.outcome(lambda: _ds_build(job, _ds_mazes(job)))
+    ds, mazes = built if res0 == "ok" else (None, [])
     rec = _ds_base(job, mazes, mgs, job["limit"], job["join"])
     rec["job"] = json.dumps(job)
     _reseed(job, 3)
     rec["perres"], per = mz.outcome(lambda: [_tok_list(x.as_tokens(tok)) for x in mazes])
     rec["per"] = per or []
-    _reseed(job, 4)
-    rec["res"], ds = mz.outcome(lambda: MazeDataset(MazeDatasetConfig(name="c07", grid_n=job["n"], n_mazes=len(mazes)), mazes))
+    rec["res"] = res0
     if rec["res"] != "ok":
         rec.update(shape="empty", strs=[], out=[])
         return rec
-    return _ds_call(rec, ds, tok, job["limit"], job["join"], job.get("defaults"))
+    limit = job["limit"]
+    if job.get("limit_np") and limit is not None:  # audit class G: a numpy integer where an int is documented
+        limit = np.int64(limit)
+    _reseed(job, 5)
+    return _ds_call(rec, ds, tok, limit, job["join"], job.get("defaults"))
 
 
 # ------------------------------------------------------------------ histories (audit class A): state must not matter
@@ -353,7 +573,8 @@ def _session_tok(job):
         if mgs is not None:  # legitimate use of the tokenizer objects between observations
             mz.outcome(lambda: (len(lt.token_arr), len(lt.tokenizer_map), lt.vocab_size, lt.padding_token_index))
         mz.outcome(lambda: (len(mt.token_arr), mt.vocab_size, mt.is_legacy_equivalent(), mt.name, hash(mt)))
-        rec = dict(t="rt", mode=job["mode"], mgs=[] if mgs is None else [mgs], maze=mz.proj(m), src="history", job=json.dumps(dict(job, pick=len(out))))
+        before = mz.proj(m)
+        rec = dict(t="rt", mode=job["mode"], mgs=[] if mgs is None else [mgs], maze=before, src="history", job=json.dumps(dict(job, pick=len(out))), lax="", argmod=[], mazemod=False)
         toks = {}
         for via, tok, salt in (("legacy", lt, 1), ("modular", mt, 2)):
             _reseed(mj, salt)
@@ -378,14 +599,20 @@ def _session_tok(job):
             S = " ".join(tk)
             objs[via] = L
             for inp, arg in (("list", L), ("str", S)):
-                mz.outcome(lambda: cls.from_tokens(arg, tok))
+                r1, y1 = mz.outcome(lambda: cls.from_tokens(arg, tok))
+                if r1 == "ok":
+                    mz.outcome(lambda: _scramble_maze(y1))  # the caller may do what it likes with a returned maze
                 r2, y = mz.outcome(lambda: _proj_safe(cls.from_tokens(arg, tok)))
                 rp.append(dict(via=via, inp=inp, res=r2, maze=y if r2 == "ok" else EMPTY_MAZE))
+            if L != list(tk):
+                rec["argmod"].append(via)
         rec["rp"] = rp
+        r3, after = mz.outcome(lambda: mz.proj(m))
+        rec["mazemod"] = not (r3 == "ok" and after == before)
         out.append(rec)
         if prev is not None and prev["resL"] == "ok" and prev["resM"] == "ok" and len(objs) == 2:
             rec2 = dict(t="rt", mode=job["mode"], mgs=rec["mgs"], maze=prev["maze"], src="history-modified-list", cls=cls.__name__,
-                        resL="ok", resM="ok", job=json.dumps(dict(job, pick=len(out))))
+                        resL="ok", resM="ok", job=json.dumps(dict(job, pick=len(out))), lax="", argmod=[], mazemod=False)
             rp2 = []
             for via, tok, key in (("legacy", lt, "tokL"), ("modular", mt, "tokM")):
                 L = objs[via]
@@ -401,7 +628,7 @@ def _session_tok(job):
         if rec["resL"] == "ok" and rec["resM"] == "ok" and len(objs) == 2:
             mT = _transposed(m)
             rec3 = dict(t="rt", mode=job["mode"], mgs=rec["mgs"], maze=mz.proj(mT), src="history-modified-list", cls=cls.__name__,
-                        job=json.dumps(dict(job, pick=len(out))))
+                        job=json.dumps(dict(job, pick=len(out))), lax="", argmod=[], mazemod=False)
             rp3 = []
             for via, tok, key, rk in (("legacy", lt, "tokL", "resL"), ("modular", mt, "tokM", "resM")):
                 _reseed(mj, 7)
@@ -429,8 +656,19 @@ def observe(job):
 
 
 # ------------------------------------------------------------------ case enumeration
+def _mix(seed):
+    """a deterministic number decorrelated from the counters the other options rotate with"""
+    import hashlib
+
+    return int.from_bytes(hashlib.md5(",".join(str(int(x)) for x in seed).encode()).digest()[:6], "big")
+
+
 def _rt_job(src, n, mode, mgs, kind, seed, **kw):
-    j = dict(t="rt", src=src, n=n, mode=mode, mgs=mgs, kind=kind, seed=list(seed), g=None, gen=None, se=None, walk=False, as_enum=False, clsrot=0)
+    """representation of the maze's arrays (REPS), the way it is constructed (CTORS) and generation_meta present /
+    absent rotate over ALL cases (audit classes F / G), decorrelated from mode / max_grid_size / kind / endpoints"""
+    h = _mix(seed)
+    j = dict(t="rt", src=src, n=n, mode=mode, mgs=mgs, kind=kind, seed=list(seed), g=None, gen=None, se=None, walk=False, as_enum=False, clsrot=0,
+             rep=REPS[h % 4], ctor=CTORS[(h // 4) % 3], meta=(h // 12) % 2 == 1)
     j.update(kw)
     return j
 
@@ -451,6 +689,7 @@ def jobs_exhaustive(seed, thorough):
     k = 0
     # 2x2: every graph satisfying the premise x every kind x every (start, end) x 3 modes x 3 max_grid_size
     cells2 = mz.cells(2, 2)
+    b = 0  # block counter: a block has 33 = 0 (mod 3) cases, so k % 3 alone would tie the parsing class to the (s, e, kind) slot
     for g in range(mz.n_graphs(2, 2)):
         conn = mz.conn_from_int(2, 2, g)
         if not premise_py(conn):
@@ -458,12 +697,13 @@ def jobs_exhaustive(seed, thorough):
         for mode in MODES:
             for mgs in MGS:
                 k += 1
-                jobs.append(_rt_job("2x2", 2, mode, mgs, "LatticeMaze", (seed, 1, k), g=g, as_enum=k % 2 == 0, clsrot=k % 3))
+                b += 1
+                jobs.append(_rt_job("2x2", 2, mode, mgs, "LatticeMaze", (seed, 1, k), g=g, as_enum=k % 2 == 0, clsrot=(k + b) % 3))
                 for s in cells2:
                     for e in cells2:
                         for kind in ("TargetedLatticeMaze", "SolvedMaze"):
                             k += 1
-                            jobs.append(_rt_job("2x2", 2, mode, mgs, kind, (seed, 1, k), g=g, se=[list(s), list(e)], as_enum=k % 2 == 0, clsrot=k % 3))
+                            jobs.append(_rt_job("2x2", 2, mode, mgs, kind, (seed, 1, k), g=g, se=[list(s), list(e)], as_enum=k % 2 == 0, clsrot=(k + b) % 3))
     # 3x3: every spanning tree (192)
     cells3 = mz.cells(3, 3)
     rng = np.random.default_rng([seed, 2])
@@ -523,6 +763,99 @@ def jobs_random(seed, count):
         se = None if kind == "LatticeMaze" else ["rand", "rand", "adj", "same"][(k // 9) % 4]
         jobs.append(_rt_job("random", n, MODES[(k // 2) % 3], MGS[(k // 5) % 3], kind, (seed, 4, k), gen=gen, se=se,
                             walk=(kind == "SolvedMaze" and gen == "dfs_perc" and k % 2 == 0), as_enum=k % 4 == 1, clsrot=k % 3))
+    return jobs
+
+
+OBLONG_SMALL = [(1, 2), (2, 1), (1, 3), (3, 1), (1, 4), (4, 1), (2, 3), (3, 2)]
+OBLONG_BIG = [(2, 5), (5, 2), (3, 7), (7, 3), (1, 6), (6, 1), (4, 11), (11, 4), (2, 20), (20, 3), (12, 13), (13, 10), (1, 12), (12, 1), (5, 8), (9, 6)]
+
+
+def jobs_oblong(seed, thorough):
+    """audit class D: rows != cols, both orientations, sides differing by >= 2, 1 x N / N x 1.  Judged: emission
+    (as_tokens of both tokenizers, Equivalent) in Layer P, the round trip in Layer M (from_tokens builds square grids)."""
+    jobs = []
+    k = 0
+    variants = [("LatticeMaze", None), ("TargetedLatticeMaze", "rand"), ("SolvedMaze", "rand"), ("SolvedMaze", "adj"), ("SolvedMaze", "same"), ("TargetedLatticeMaze", "same")]
+    combos = [(mo, mg) for mo in MODES for mg in MGS]
+    for r, c in OBLONG_SMALL:  # every premise-satisfying graph of the small oblong shapes
+        gi = 0
+        for g in range(mz.n_graphs(r, c)):
+            if not premise_py(mz.conn_from_int(r, c, g)):
+                continue
+            gi += 1
+            for vi, (kind, se) in enumerate(variants if thorough else [variants[gi % 6], variants[(gi + 2 + gi // 6) % 6], variants[(gi + 4) % 6]]):
+                k += 1
+                mode, mgs = combos[(gi + 4 * vi + k) % 9]
+                jobs.append(_rt_job("oblong", max(r, c), mode, mgs, kind, (seed, 10, k), rc=[r, c], g=g, se=se, as_enum=k % 2 == 0, clsrot=k % 3))
+    gens = ["dfs", "wilson", "dfs_perc", "full", "sparse"]
+    for rep in range(4 if thorough else 1):
+        for si, (r, c) in enumerate(OBLONG_BIG):
+            for vi, (kind, se) in enumerate(variants):
+                k += 1
+                mode, mgs = combos[(si + 2 * vi + rep) % 9]
+                jobs.append(_rt_job("oblong", max(r, c), mode, mgs, kind, (seed, 10, k), rc=[r, c], gen=gens[(si + vi + rep) % 5], se=se, as_enum=k % 4 == 1, clsrot=k % 3))
+    return jobs
+
+
+def jobs_shortest(seed, thorough):
+    """audit classes C / H: one-cell solutions (at a random cell, at the cell (0,0), at a cell with no neighbour at all)
+    and two-cell solutions, in mazes with EVERY connection and with about as few connections as the premise allows,
+    under every mode x max_grid_size, square and oblong; plus generator mazes with the same endpoints."""
+    jobs = []
+    k = 0
+    shapes = [(2, 2), (3, 3), (4, 4), (7, 7), (11, 11), (20, 20), (2, 5), (5, 2), (3, 7), (1, 4), (4, 1)]
+    variants = [("LatticeMaze", None), ("TargetedLatticeMaze", "origin"), ("TargetedLatticeMaze", "iso"), ("TargetedLatticeMaze", "adj"),
+                ("SolvedMaze", "origin"), ("SolvedMaze", "iso"), ("SolvedMaze", "adj"), ("SolvedMaze", "same")]
+    for si, (r, c) in enumerate(shapes):
+        for gen in ("full", "sparse") + (("dfs", "dfs_perc") if thorough or r == c else ()):
+            for vi, (kind, se) in enumerate(variants):
+                for mi, mode in enumerate(MODES):
+                    if not thorough and max(r, c) >= 11 and (mi + vi + si) % 3 != 0:
+                        continue
+                    k += 1
+                    jobs.append(_rt_job("shortest", max(r, c), mode, MGS[(mi + vi + si) % 3], kind, (seed, 11, k), rc=None if r == c else [r, c], gen=gen, se=se,
+                                        as_enum=k % 2 == 0, clsrot=(k // 3) % 3))
+    return jobs
+
+
+def jobs_lax(seed):
+    """audit class G, beyond the declared types: a 0/1 connection array of dtype uint8.  Every clause Layer M."""
+    jobs = []
+    k = 0
+    for n, gen in ((2, "full"), (3, "dfs"), (5, "dfs_perc"), (11, "dfs"), (4, "sparse")):
+        for mi, mode in enumerate(MODES):
+            k += 1
+            kind = KINDS[(k + mi) % 3]
+            jobs.append(_rt_job("lax", n, mode, MGS[k % 3], kind, (seed, 12, k), gen=gen, se=None if kind == "LatticeMaze" else ["rand", "same", "adj"][k % 3], rep="u8", lax="nonbool_conn", clsrot=k % 3))
+    return jobs
+
+
+def jobs_dataset_variants(seed, count):
+    """audit classes C / E / F / G / D at the dataset level: the EMPTY dataset, a stale n_mazes / grid_n in the config,
+    the mazes handed over as tuple / one-shot iterator / the caller's own list emptied or reversed afterwards, a maze
+    object (or an equal maze) twice, a numpy integer as limit, datasets made by MazeDataset.generate (generation_meta in
+    the mazes / collected), oblong mazes; x limit in {None, 0, 1, n, n+3, n-1} x join x legacy / modular"""
+    jobs = []
+    cfg_ns = ["len", "zero", "more", "less"]
+    ctors = ["list", "tuple", "own-cleared", "own-reversed", "iter"]
+    dups = [None, None, "object", "equal"]
+    for k in range(count):
+        rng = np.random.default_rng([seed, 13, k])
+        h = _mix((seed, 13, k))
+        n = int(rng.integers(2, 5))
+        nm = 0 if k % 6 == 0 else 1 + k % 4
+        generated = [None, None, None, None, None, "meta", "collected"][(k // 2) % 7] if nm > 0 else None
+        rc = None
+        if generated is None and k % 9 == 4:
+            rc = [[2, 4], [4, 2], [3, 5], [1, 3]][(k // 9) % 4]
+            n = max(rc)
+        mazes = [] if generated else [_rt_job("dataset", n, "", "", "SolvedMaze", (seed, 13, k, i), rc=rc, gen=["dfs", "dfs_perc", "wilson", "sparse", "full"][(k + i) % 5], se=["rand", "adj", "same", "origin"][(k + i) % 4]) for i in range(nm)]
+        dup = None if generated else dups[h % 4]
+        n_eff = nm + (1 if dup and nm else 0)
+        limit = [None, 0, 1, n_eff, n_eff + 3, max(n_eff - 1, 0)][(k // 5) % 6]
+        jobs.append(dict(t="ds", src="dataset-variant", n=n, nm=nm, mode=MODES[(k // 3) % 3], mgs=MGS[(k // 11) % 3], as_enum=k % 4 == 1, via=["legacy", "modular"][(k // 2) % 2],
+                         limit=limit, join=(k // 4) % 2 == 1, defaults=False, seed=[seed, 13, k], mazes=mazes, generated=generated, dup=dup,
+                         cfg_n=cfg_ns[(h // 4) % 4], ctor=ctors[(h // 16) % 5], cfg_grid=None if (h // 80) % 3 else n + 3, limit_np=(h // 240) % 2 == 1))
     return jobs
 
 
@@ -611,21 +944,24 @@ def _hand_tokens(ck, entries, start=None, end=None, sol=None):
     return t
 
 
-def _hand_maze(kind, n, edges, start=None, end=None, sol=None):
-    conn = [[[0] * n for _ in range(n)] for _ in range(2)]
+def _hand_maze(kind, n, edges, start=None, end=None, sol=None, nc=None):
+    nc = n if nc is None else nc
+    conn = [[[0] * nc for _ in range(n)] for _ in range(2)]
     for a, b in edges:
         lo = min(a, b)
         conn[0 if a[0] != b[0] else 1][lo[0]][lo[1]] = 1
-    return dict(kind=kind, R=n, C=n, conn=conn, start=list(start) if start else [], end=list(end) if end else [], sol=[list(c) for c in sol] if sol else [])
+    return dict(kind=kind, R=n, C=nc, conn=conn, start=list(start) if start else [], end=list(end) if end else [], sol=[list(c) for c in sol] if sol else [])
 
 
-def _hand_rt(mode, n, edges, kind, start=None, end=None, sol=None, flipM=True):
+def _hand_rt(mode, n, edges, kind, start=None, end=None, sol=None, flipM=True, nc=None, back=None):
+    """back: the (hand-made) maze value the four re-parses return, default the maze itself"""
     ck = "CTT" if mode == "AOTP_CTT_indexed" else "UT"
-    m = _hand_maze(kind, n, edges, start, end, sol)
+    m = _hand_maze(kind, n, edges, start, end, sol, nc=nc)
     eL = list(edges)
     eM = [(b, a) if (i % 2 == 0 and flipM) else (a, b) for i, (a, b) in enumerate(reversed(edges))]
-    rp = [dict(via=v, inp=i, res="ok", maze=json.loads(json.dumps(m))) for v in ("legacy", "modular") for i in ("list", "str")]
-    return dict(t="rt", mode=mode, mgs=[], maze=m, resL="ok", resM="ok", tokL=_hand_tokens(ck, eL, start, end, sol), tokM=_hand_tokens(ck, eM, start, end, sol), rp=rp, src="canary-base")
+    rp = [dict(via=v, inp=i, res="ok", maze=json.loads(json.dumps(back or m))) for v in ("legacy", "modular") for i in ("list", "str")]
+    return dict(t="rt", mode=mode, mgs=[], maze=m, resL="ok", resM="ok", tokL=_hand_tokens(ck, eL, start, end, sol), tokM=_hand_tokens(ck, eM, start, end, sol), rp=rp, src="canary-base",
+                lax="", argmod=[], mazemod=False)
 
 
 def _canary_bases():
@@ -649,7 +985,19 @@ def _canary_bases():
     ta2 = _hand_tokens("UT", [(b, a) for a, b in reversed(ea)], (0, 0), (1, 1), [(0, 0), (0, 1), (1, 1)])
     d_list = dict(t="ds", mode="AOTP_UT_uniform", via="legacy", mgs=[], n=2, mazes=[ma, mb], limit=[], join=False, perres="ok", per=[ta, tb], res="ok", shape="lists", out=[ta2, tb], strs=[], src="canary-base")
     d_join = dict(d_list, join=True, limit=[1], shape="strs", out=[ta2], strs=[" ".join(ta2)], via="modular")
-    return dict(ut=b_ut, ctt=b_ctt, plain=b_plain, cs=b_cs, dlist=d_list, djoin=d_join)
+    # oblong 2x3 tree, solved with a one-cell path at (0,0): the re-parses return the maze on the 3x3 grid (as the code
+    # does) / the 2x3 maze itself (as a from_tokens without the square restriction would)
+    e23 = [((0, 0), (0, 1)), ((0, 1), (0, 2)), ((0, 0), (1, 0)), ((1, 0), (1, 1)), ((1, 1), (1, 2))]
+    pad = _hand_maze("SolvedMaze", 3, e23, (0, 0), (0, 0), [(0, 0)])
+    b_ob = _hand_rt("AOTP_UT_uniform", 2, e23, "SolvedMaze", (0, 0), (0, 0), [(0, 0)], nc=3, back=pad)
+    b_ob2 = _hand_rt("AOTP_CTT_indexed", 2, e23, "SolvedMaze", (0, 0), (0, 0), [(0, 0)], nc=3)
+    # 3x2 (the other orientation), targeted
+    e32 = [((0, 0), (1, 0)), ((1, 0), (2, 0)), ((0, 0), (0, 1)), ((1, 0), (1, 1)), ((2, 0), (2, 1))]
+    b_ob3 = _hand_rt("AOTP_UT_rasterized", 3, e32, "TargetedLatticeMaze", (2, 1), (0, 0), nc=2, back=_hand_maze("TargetedLatticeMaze", 3, e32, (2, 1), (0, 0)))
+    # the empty dataset, and a one-cell path at (0,0) under limit 0
+    d_empty = dict(d_list, n=0, mazes=[], per=[], out=[], shape="empty", limit=[3], join=True, via="modular")
+    d_zero = dict(d_list, limit=[0], out=[], shape="empty")
+    return dict(ut=b_ut, ctt=b_ctt, plain=b_plain, cs=b_cs, dlist=d_list, djoin=d_join, ob=b_ob, ob2=b_ob2, ob3=b_ob3, dempty=d_empty, dzero=d_zero)
 
 
 def _canaries():
@@ -737,8 +1085,37 @@ def _canaries():
     out.append((mod(B["ut"], both_wrong), "M:spec_parse_differs"))
     # premise: a 3x3 maze whose last row and column occur in no connection
     out.append((mod(_hand_rt("AOTP_UT_uniform", 3, [((0, 0), (0, 1)), ((0, 0), (1, 0)), ((1, 0), (1, 1))], "LatticeMaze"), lambda x: None), "M:outside_premise"))
+    # oblong mazes: the round trip is Layer M (the maze itself or padded to the square), the emission stays Layer P
+    def ob_transposed(x):  # 2x3 read back as the 3x2 mirror image, padded
+        y = x["rp"][0]["maze"]
+        c = y["conn"]
+        y["conn"] = [[[c[1][j][i] for j in range(3)] for i in range(3)], [[c[0][j][i] for j in range(3)] for i in range(3)]]
+
+    out.append((mod(B["ob"], ob_transposed), "M:oblong_rt_legacy_list_conn"))
+    out.append((mod(B["ob"], lambda x: x["rp"][3]["maze"].update(sol=[])), "M:oblong_rt_modular_str_sol"))
+    out.append((mod(B["ob2"], lambda x: x["rp"][1].update(res="raise:ValueError", maze=EMPTY_MAZE)), "M:oblong_rt_legacy_str_raises"))
+
+    def ob_pad4(x):  # padded, but to 4x4
+        y = x["rp"][2]["maze"]
+        y["R"] = y["C"] = 4
+        y["conn"] = [[row + [0] for row in d] + [[0] * 4] for d in y["conn"]]
+
+    out.append((mod(B["ob"], ob_pad4), "M:oblong_rt_modular_list_conn"))
+    out.append((mod(B["ob3"], lambda x: x["rp"][0]["maze"].update(start=[1, 2])), "M:oblong_rt_legacy_list_start"))
+    out.append((mod(B["ob"], origin), "equiv_outside_adj"))
+    out.append((mod(B["ob3"], lambda x: x["tokM"].__setitem__(slice(1, 5), ["(1,1)", "<-->", "(2,1)", ";"])), "equiv_adj_entries"))
+    out.append((mod(B["ob2"], lambda x: x.update(resL="raise:IndexError", tokL=[], rp=x["rp"][2:])), "legacy_as_tokens_raises"))
+    # representation beyond the declared types: the same defects, every clause Layer M
+    out.append((mod(B["ut"], lambda x: (flipbit(x), x.update(lax="nonbool_conn"))), "M:nonbool_conn:rt_legacy_list_conn"))
+    out.append((mod(B["ut"], lambda x: (origin(x), x.update(lax="nonbool_conn"))), "M:nonbool_conn:equiv_outside_adj"))
+    # side effects on the caller's objects
+    out.append((mod(B["ut"], lambda x: x.update(argmod=["legacy"])), "M:from_tokens_modified_its_argument"))
+    out.append((mod(B["cs"], lambda x: x.update(mazemod=True)), "M:tokenization_modified_the_maze"))
     # dataset level
     D, J = B["dlist"], B["djoin"]
+    out.append((mod(B["dempty"], lambda x: x.update(out=[["<ADJLIST_START>", "<ADJLIST_END>"]], strs=["<ADJLIST_START> <ADJLIST_END>"], shape="strs")), "dataset_limit"))  # an item out of nothing
+    out.append((mod(B["dzero"], lambda x: x.update(out=x["per"], shape="lists")), "dataset_limit"))  # limit 0 read as "no limit"
+    out.append((mod(B["dzero"], lambda x: x.update(limit=[])), "dataset_limit"))  # no limit, nothing returned
     out.append((mod(D, lambda x: x.update(limit=[1])), "dataset_limit"))  # limit ignored
     out.append((mod(D, lambda x: x.update(out=x["out"][:1])), "dataset_limit"))  # item dropped without a limit
     out.append((mod(D, lambda x: x.update(out=x["out"][::-1])), "dataset_item_differs"))  # order not kept
@@ -833,11 +1210,12 @@ def _judge(chk, recs, canaries, bases, *, label, what):
 # ------------------------------------------------------------------ design level
 def _design(thorough):
     """run the design models concurrently (each TLC with a few workers) while the real code is observed"""
-    ex = cf.ThreadPoolExecutor(max_workers=5)
+    ex = cf.ThreadPoolExecutor(max_workers=6)
     w = 6
     futs = {
         "small": ex.submit(lib.tlc_design, "TokLegacyMC", "TokLegacy_small.cfg", workers=w, tag="s", xmx="2g"),
         "nopremise": ex.submit(lib.tlc_expect_violation, "TokLegacyMC", "TokLegacy_nopremise.cfg", "RoundTripNoPremise", workers=2, tag="np", xmx="1g"),
+        "sqinfer": ex.submit(lib.tlc_expect_violation, "TokLegacyMC", "TokLegacy_sqinfer.cfg", "SquareRoundTrip", workers=1, tag="sq", xmx="1g"),
         "ds": ex.submit(lib.tlc_design, "TokLegacyMC", "TokLegacy_ds.cfg", workers=2, tag="ds", xmx="1g"),
         "ds_broken": ex.submit(lib.tlc_expect_violation, "TokLegacyMC", "TokLegacy_ds_broken.cfg", "DSAccepted", workers=2, tag="dsb", xmx="1g"),
     }
@@ -850,9 +1228,11 @@ def _collect_design(chk, ex, futs):
     r = futs["small"].result()
     if r.distinct < 40000:
         raise lib.MachineryError(f"TokLegacy_small explored only {r.distinct} states (vacuous?)")
-    chk.add_model("TokLegacy/small", r, "all graphs of 1x1,1x2,2x1,1x3,3x1,2x2 x 3 kinds (all start/end pairs, all cell sequences <= 2) x {UT,CTT} x every admissible emission: RoundTrip (premise), RoundTripIff, InEmitExact, WrongStyleRejected, EquivExact, BagNotSet")
+    chk.add_model("TokLegacy/small", r, "all graphs of 1x1,1x2,2x1,1x3,3x1,2x2 x 3 kinds (all start/end pairs, all cell sequences <= 2) x {UT,CTT} x every admissible emission: RoundTrip (premise), RoundTripIff, SquareInference, InEmitExact, WrongStyleRejected, EquivExact, BagNotSet")
     r = futs["nopremise"].result()
     chk.add_model("TokLegacy/nopremise (must fail)", r, "without the premise TLC finds a maze whose emission parses to a smaller grid: RoundTripNoPremise violated as required")
+    r = futs["sqinfer"].result()
+    chk.add_model("TokLegacy/square inference (must fail)", r, "with the implementation's one-side grid inference (ParseSq) an oblong maze satisfying the premise does not come back: SquareRoundTrip violated as required - the round trip is judged on square mazes only (oblong: Layer M, PadSq)")
     r = futs["ds"].result()
     if r.distinct < 5000:
         raise lib.MachineryError(f"TokLegacy_ds explored only {r.distinct} states (vacuous?)")
@@ -876,6 +1256,10 @@ def main(chk: lib.Check) -> int:
         "(thorough: x all 81 (start,end)); 3x3 graphs with cycles/components (thorough: all 4096 filtered by the premise); seeded random "
         "gen_dfs / gen_wilson / gen_dfs_percolation mazes of grid 2..20 (multi-digit indices, two-cell and one-cell paths, non-shortest walks); "
         "datasets of 1..4 solved mazes x limit in {None,0,1,n,n+3,n-1} x join x legacy/modular; histories on shared tokenizer / dataset / list objects; magnitude cases (144/256/400/2500-cell solutions, 16x16, 50x50, datasets of 130/260 with limits around 128/256); "
+        "oblong mazes (every premise-satisfying graph of 1x2..1x4, 2x3 and their transposes; generator / full / sparse mazes of 2x5 .. 20x3, 1x12) - emission Layer P, round trip Layer M; "
+        "shortest cases: one-cell paths (random cell, cell (0,0), a cell without neighbours) and two-cell paths in full and sparse mazes under every mode; "
+        "every maze in one of four array representations (C / Fortran / non-contiguous view / int8, start-end-solution as array, tuple, list) x three ways of construction x generation_meta present / absent; "
+        "dataset variants: empty dataset, stale n_mazes / grid_n, mazes as tuple / iterator / caller's list changed afterwards, a maze twice, numpy-integer limit, MazeDataset.generate (+ collected metadata), oblong mazes; "
         "non-trivial = >= 2 adjacency entries and (solved => path of >= 2 cells); datasets: >= 2 mazes"
     )
     ex, futs = _design(thorough)
@@ -886,6 +1270,10 @@ def main(chk: lib.Check) -> int:
         jobs += jobs_dataset(chk.seed, 1500 if thorough else 240)
         jobs += jobs_history(chk.seed, thorough)
         jobs += jobs_magnitude(chk.seed, thorough)
+        jobs += jobs_oblong(chk.seed, thorough)
+        jobs += jobs_shortest(chk.seed, thorough)
+        jobs += jobs_lax(chk.seed)
+        jobs += jobs_dataset_variants(chk.seed, 900 if thorough else 210)
         # big mazes first so that the pool does not end on a straggler
         order = sorted(range(len(jobs)), key=lambda i: -jobs[i]["n"] * (8 if jobs[i]["t"] == "session" else 1))
         recs_o = lib.pmap(observe, [jobs[i] for i in order], chunksize=2)
@@ -916,6 +1304,19 @@ def main(chk: lib.Check) -> int:
         chk.notes["one_cell_paths"] = sum(1 for x in rts if len(x["maze"]["sol"]) == 1)
         chk.notes["two_cell_paths"] = sum(1 for x in rts if len(x["maze"]["sol"]) == 2)
         chk.notes["raised"] = sum(1 for x in rts if x["resL"] != "ok" or x["resM"] != "ok" or any(r["res"] != "ok" for r in x["rp"])) + sum(1 for x in recs if x["t"] == "ds" and (x["res"] != "ok" or x["perres"] != "ok"))
+        chk.notes["oblong_records"] = sum(1 for x in rts if x["maze"]["R"] != x["maze"]["C"])
+        chk.notes["one_by_n_records"] = sum(1 for x in rts if min(x["maze"]["R"], x["maze"]["C"]) == 1)
+        chk.notes["lax_records_layer_M_only"] = sum(1 for x in rts if x["lax"])
+        chk.notes["one_cell_paths_at_origin"] = sum(1 for x in rts if x["maze"]["sol"] == [[0, 0]])
+        chk.notes["one_cell_paths_at_isolated_cell"] = sum(1 for x in rts if len(x["maze"]["sol"]) == 1 and x["src"] == "shortest" and '"se": "iso"' in x["job"])
+        chk.notes["full_lattice_records"] = sum(1 for x in rts if '"gen": "full"' in x.get("job", ""))
+        chk.notes["maze_representations"] = {r: sum(1 for x in rts if ('"rep": "%s"' % r) in x.get("job", "")) for r in REPS + ["u8"]}
+        chk.notes["maze_constructions"] = {c: sum(1 for x in rts if ('"ctor": "%s"' % c) in x.get("job", "")) for c in CTORS}
+        dss = [x for x in recs if x["t"] == "ds"]
+        chk.notes["empty_datasets"] = sum(1 for x in dss if x["n"] == 0)
+        chk.notes["dataset_limit_zero"] = sum(1 for x in dss if x["limit"] == [0])
+        chk.notes["dataset_variants"] = {k: sum(1 for x in dss if k in x.get("job", "")) for k in ('"cfg_n": "zero"', '"cfg_n": "more"', '"cfg_n": "less"', '"ctor": "tuple"', '"ctor": "iter"', '"ctor": "own-cleared"', '"ctor": "own-reversed"', '"dup": "object"', '"dup": "equal"', '"generated": "meta"', '"generated": "collected"', '"limit_np": true')}
+        chk.notes["argument_aliasing"] = "from_tokens gets the caller's own list; the parsed string is joined from it after the call; the list is overwritten in place before the returned maze is read; the maze given to as_tokens is compared with its value before the calls; histories: the arrays of a first from_tokens result are overwritten in place before the second call"
         chk.notes["exhaustive_records"] = n_exh
         chk.notes["exhaustive_scope"] = (
             "2x2: all 11 premise-satisfying graphs x {plain, targeted x 16 (s,e), solved x connected (s,e)} x 3 modes x max_grid_size {None,2,20}; "
@@ -936,7 +1337,7 @@ def main(chk: lib.Check) -> int:
     chk.assumptions = [
         "TLC, CommunityModules JSON reader, CPython/numpy",
         "coordinate strings are decoded in TLA+ by table lookup over indices < 50 (TLC cannot look inside strings); joined strings are split on blanks by the harness and re-joined + compared in TLA+",
-        "only square mazes are judged (from_tokens builds a square grid; statement quantifies over grid sizes 2..20); the 50x50 magnitude cases lie beyond that quantifier (largest grid with unique coordinate tokens in the fixed vocabulary) and are judged all the same",
+        "the round trip is judged on square mazes only (from_tokens builds a square grid; statement quantifies over grid sizes 2..20), oblong round trips are Layer M; the 50x50 magnitude cases lie beyond that quantifier (largest grid with unique coordinate tokens in the fixed vocabulary) and are judged all the same",
         "mazes beyond 3x3 are seeded samples of the generators, not exhaustive; the as_tokens shuffle is driven by seeded numpy/random state",
     ]
     from harness.checks import tokutils_common
